@@ -14,7 +14,7 @@ pub fn def() -> CheckDef {
         id: "C18",
         level: "exploration",
         cases: |t| match t {
-            Tier::Quick => 1_200,
+            Tier::Quick => 5_000,
             Tier::Thorough => 60_000,
         },
         gen,
